@@ -227,6 +227,10 @@ func c03Values(r *Rng) []interface{} {
 		0.0, math.Copysign(0, -1), 0.5, -0.5, 1.5, -1.5, 1e30, -1e30, 1e19, 1.8446744073709552e19, 1.8446744073709550e19,
 		9.223372036854775807e18, 9.223372036854776e18, -9.223372036854776e18, -9.223372036854778e18,
 		math.NaN(), math.Inf(1), math.Inf(-1), math.SmallestNonzeroFloat64, math.MaxFloat64, math.MaxFloat32, math.MaxFloat32 * 1.0000001, 3.4028235677973366e38,
+		// float seconds around the largest Duration (2^63 ns = 9223372036.854775808 s): the product with 1e9 decides
+		9223372036.854775, 9223372036.854776, 9223372036.8547745, 9223372036.9, 9223372036.5, 9223372035.9, 9223372036.999999,
+		-9223372036.854775, -9223372036.854776, -9223372036.8547745, -9223372036.9, -9223372036.999999, -9223372037.0,
+		math.Nextafter(9223372036.854776, 0), math.Nextafter(9223372036.854776, math.Inf(1)), math.Nextafter(-9223372036.854776, 0), math.Nextafter(-9223372036.854776, math.Inf(-1)),
 		9223372036.0, 9223372037.0, int64(9223372036), int64(9223372037), uint64(9223372037), int64(-9223372037), 1e-10, 0.1, 3.14,
 		true, false,
 		"", "0", "1", "-1", "+5", "0x10", "0b101", "0o17", "017", "1_000", "1e3", "1.5", "abc", "true", "T", "on", "null",
